@@ -1,6 +1,7 @@
 // Character-type traits mapping to the ...A / ...W public API of uriparser.
 #pragma once
 #include <uriparser/Uri.h>
+#include <uriparser/UriIp4.h>
 #include <string>
 #include <vector>
 
@@ -55,6 +56,7 @@ template <class C> struct Api;
         static int WindowsFilenameToUriString(const CH* f, CH* u) { return uriWindowsFilenameToUriString##SUF(f, u); }      \
         static int UriStringToUnixFilename(const CH* u, CH* f) { return uriUriStringToUnixFilename##SUF(u, f); }            \
         static int UriStringToWindowsFilename(const CH* u, CH* f) { return uriUriStringToWindowsFilename##SUF(u, f); }      \
+        static int ParseIpFourAddress(unsigned char* o, const CH* f, const CH* l) { return uriParseIpFourAddress##SUF(o, f, l); } \
     };
 
 URISIM_API(char, A)
